@@ -105,6 +105,23 @@ CHECKS = {
              'and validated event by event by TLC; an exception escaping event() is an unmatched event.',
         note='The scenario of a recorded run is derived from the observation (solution counts from the real tracer). '
              'Physical correctness of the signals is C01/C03/C07 material and not examined.'),
+    'C17': dict(
+        spec='NoiseRel.tla', design='12.3',
+        technique='TLA+ spec NoiseRel.tla of noise objects as (basis, window, delay) with symbolic values, checked with TLC; its '
+                  'behaviours replayed on FullThermalNoise / FFTThermalNoise with every sample compared with the sum of the cosines '
+                  'published by the basis',
+        text='NoiseRel.tla models a noise object as [basis, window (first tick, length, stride), delay]; WithTimes, Shift, Copy, '
+             'Rebuild (same arguments + published basis) and Fresh (independent basis) act on a pool of objects; a sample shows the '
+             'symbolic value <<basis, tick - delay>>.  TLC checks SharedTicksAgree, ShiftKeepsSamples, OthersUntouched, '
+             'BasesCounted exhaustively to depth 4 (5 thorough); depth-6 simulations over 2 implementations x 6 bands x 4 '
+             'amplitude specifications x 3 uniqueness factors x 2 lengths x 2 rms modes are executed on the real classes: every '
+             'sample of every object after every step equals the sum of the published cosines at (tick - delay) to 1e-9.',
+        note='Decides: exact sum of published cosines (incl. periodic continuation, far windows, half-sample and 3/2-sample '
+             'strides for the full implementation; construction-lattice samples for the FFT implementation), frequencies in band, '
+             'rms value (given or sqrt(k T R bandwidth)), unit amplitudes -> rms exactly over one FFT period, same basis -> same '
+             'waveform, independent objects differ, function of absolute time under with_times / shift / copy. Not decided: '
+             'statistical clauses (Rayleigh amplitudes give the rms on average). The antenna noise master is exercised in C09, '
+             'stored bases in C11.'),
     'C19': dict(
         spec='Detector.tla', design='4.7',
         text='Detector.tla models detectors as a heap of antennas, (nested) lists, strings, stations and combined detectors '
@@ -195,7 +212,6 @@ CHECKS = {
 NOT_APPLICABLE = {
     'C01': 'purely numerical (closed-form integrals / root search against a continuous index profile); no discrete state for a TLA+ model, see DESIGN.md section 6',
     'C15': 'purely numerical (quadrature accuracy of a line integral); no state to model',
-    'C17': 'statistical/spectral statement about random waveforms; the absolute-time clause is exercised in C09',
     'C20': 'static property of the source text against library versions; nothing evolves (the import defect D0 it describes was repaired as a precondition, see known_findings.json)',
 }
 NOT_BUILT = 'specification module not built yet in this round (see DESIGN.md section 9); not claimed rather than claimed with a hollow check'
